@@ -96,4 +96,44 @@ Definition run (x : sx) : sx :=
         SL (sx_id "docs" :: map snd u2)]
   end.
 
-Definition run_line : bytes -> bytes := run_line_with run.
+(* Base.Sx.sx_parse reverses every atom with List.rev, which is quadratic, and a case carries its whole file as ONE atom
+   (files with a container of a few thousand members are 50 kB).  The same stack machine with rev_append, proved equal to it. *)
+Definition flush_lin (cur : bytes) (top : list sx) : list sx :=
+  match cur with [] => top | _ => SA (rev_append cur []) :: top end.
+
+Fixpoint sx_parse_lin (s : bytes) (cur : bytes) (top : list sx) (stk : list (list sx)) : option (list sx) :=
+  match s with
+  | [] => match stk with [] => Some (rev_append (flush_lin cur top) []) | _ => None end
+  | c :: s' =>
+    if byte_eqb c x28 then sx_parse_lin s' [] [] (flush_lin cur top :: stk)
+    else if byte_eqb c x29 then
+      match stk with
+      | [] => None
+      | up :: stk' => sx_parse_lin s' [] (SL (rev_append (flush_lin cur top) []) :: up) stk'
+      end
+    else if byte_eqb c x20 || byte_eqb c x0a || byte_eqb c x0d || byte_eqb c x09 then
+      sx_parse_lin s' [] (flush_lin cur top) stk
+    else sx_parse_lin s' (c :: cur) top stk
+  end.
+
+Lemma flush_lin_eq : forall cur top, flush_lin cur top = flush cur top.
+Proof. intros [|c cur] top; [reflexivity|]. unfold flush_lin, flush. now rewrite rev_append_rev, app_nil_r. Qed.
+
+Lemma sx_parse_lin_eq : forall s cur top stk, sx_parse_lin s cur top stk = sx_parse_aux s cur top stk.
+Proof.
+  induction s as [|c s IH]; intros cur top stk; cbn [sx_parse_lin sx_parse_aux].
+  - destruct stk; [|reflexivity]. now rewrite flush_lin_eq, rev_append_rev, app_nil_r.
+  - rewrite !flush_lin_eq, rev_append_rev, app_nil_r.
+    destruct (byte_eqb c x28); [apply IH|].
+    destruct (byte_eqb c x29); [destruct stk; [reflexivity|apply IH]|].
+    destruct (_ || _); apply IH.
+Qed.
+
+Definition run_line (line : bytes) : bytes :=
+  match sx_parse_lin line [] [] [] with
+  | Some [x] => sx_print (run x)
+  | _ => bs "(badline)"
+  end.
+
+Lemma run_line_eq : forall line, run_line line = run_line_with run line.
+Proof. intro line. unfold run_line, run_line_with, sx_parse. now rewrite sx_parse_lin_eq. Qed.
